@@ -30,9 +30,13 @@ enum Case {
 
 fn gen(t: Tier, _seed: u64, emit: &mut dyn FnMut(Case)) {
     for cid in Cid::ALL {
-        let l = t.pick(5, 7);
+        let l = t.pick(5, 6);
         for seed in 0..3 {
             emit(Case::Fixpoint { cid, l, seed });
+        }
+        if t.thorough() {
+            // one level deeper from the empty sequence
+            emit(Case::Fixpoint { cid, l: 7, seed: 0 });
         }
         for n in wb_lengths(cid.bits(), t.pick(2, 3)) {
             for headed in [false, true] {
